@@ -156,12 +156,25 @@ def run_case(case, ci):
     code = {}
     log = []
 
-    def site(k):
+    def site(k, t=None):
         del hits[:]
         del syshits[:]
         finders = sum(1 for f in sys.meta_path if isinstance(f, TraceFinder))
         try:
-            if k == "KTop":
+            if k in ("exec", "eval"):
+                # the real sandbox API; finders are counted inside the sandbox's own context, as for a site inside an "exec" item
+                fcount = []
+
+                def _count():
+                    fcount.append(sum(1 for f in sys.meta_path if isinstance(f, TraceFinder)))
+                    return 0
+                if k == "exec":
+                    t.exec("x = _count() + 1", {"_count": _count}, filename="<sandbox-x>")
+                else:
+                    t.eval("_count() + 1", {"_count": _count}, filename="<sandbox-x>")
+                finders = fcount[0] if fcount else finders
+                k = "RTop"
+            elif k == "KTop":
                 exec(code["top"], env)
             elif k == "KFunc":
                 env["f"]()
@@ -201,6 +214,8 @@ def run_case(case, ci):
                     run_items(it[2])
             elif k == "site":
                 site(it[1])
+            elif k == "rsite":
+                site(it[2], tracers[it[1]])
             elif k == "import":
                 do_import(it[1])
             elif k == "raise":
